@@ -1,6 +1,6 @@
 (* C02 — non-vacuity: concrete programs meeting the theorems' hypotheses. *)
 From Coq Require Import List String ZArith Bool.
-From V.C02 Require Import Lang Model Spec Wf Proofs.
+From V.C02 Require Import Lang Model Spec Wf Proofs Slots ProofsSlots.
 Import ListNotations.
 Open Scope string_scope.
 
@@ -97,3 +97,15 @@ Example ex_fast_falls_back : fast_assign "" (EBin Add (EVar "a") (lit 2)) ([("a"
 Proof. reflexivity. Qed.
 Example ex_le_fires : var_int_le "" (EVar "a") (lit 2) ([("a", VInt 5)], []) empty_glob = Some false.
 Proof. reflexivity. Qed.
+
+(* the variable tables of the example's functions cover their bodies; slots are as the parser numbers
+   them: parameters first, then first occurrence *)
+Example ex_tables : map fun_vars (funcs ex_prog) = [["n"]; ["step"; "n"]; ["limit"; "i"; "acc"; "k"; "v"]].
+Proof. vm_compute. reflexivity. Qed.
+Example ex_covers : forallb (fun d => covers (fun_vars d) (fbody d)) (funcs ex_prog) = true.
+Proof. vm_compute. reflexivity. Qed.
+Example ex_vrel : vrel ["a"; "b"] [("b", VInt 2)] [VNull; VInt 2].
+Proof. split; [reflexivity|]. intros x. simpl. destruct (String.eqb x "a") eqn:A; simpl.
+  - apply String.eqb_eq in A. subst. reflexivity.
+  - destruct (String.eqb x "b") eqn:B; simpl; reflexivity.
+Qed.
